@@ -1716,6 +1716,7 @@ def floor_plans(base_seed, tier='quick'):
     plans += order_floor_plans(base_seed, tier)
     plans += minimal_floor_plans(base_seed, tier)
     plans += mixed_floor_plans(base_seed, tier)
+    plans += lifetime_floor_plans(base_seed, tier)
     return plans
 
 
@@ -2756,4 +2757,64 @@ def mixed_floor_plans(base_seed, tier='quick'):
         plans.append(dict(version=1, run_seed=seed, tier=tier, floor=True, config='plain',
                           hist=env_side(rng, False, 'hist'), orac=env_side(rng, False, 'orac'),
                           disk={}, tasks=[c], schedule=[0] * len(cops)))
+    return plans
+
+
+# -------------------------------------------------------------- lifetime floor
+
+def lifetime_floor_plans(base_seed, tier='quick'):
+    """Two or three constructor-built models that share caller-owned objects
+    (one list of Medium objects - a single medium, a layered ground, the
+    exported ideal ground - and argument arrays).  One of them is used and
+    then dropped, the cyclic collector runs, and the survivors are observed
+    again: when a model ends is the caller's business and must not show in
+    another model's results or texts."""
+    plans = []
+    for i, ground in enumerate(['shared_real2', 'shared_real2', 'shared_real', 'shared_ideal', 'shared_real2',
+                                'shared_ideal']):
+        seed = base_seed * 1000003 + 999990 + i
+        rng = random.Random(seed)
+        tasks = []
+        for k in range(2 + (i % 2)):
+            t = gen_direct_task(rng, ground=ground, maxops=6)
+            t['direct']['rejects'] = []
+            first = [['COMPUTE'], ['FAR', 0], ['OBS_NUM'], ['OBS_MISC', k], ['OBS_CMDLINE']]
+            if k == 0:
+                t['ops'] = first + [['DROP']]
+            else:
+                t['ops'] = first + [['OBS_MISC', k + 1], ['OBS_CMDLINE'], ['OBS_REPORT', ['far-field']], ['SET_F', 1],
+                                    ['COMPUTE'], ['FAR', 0], ['OBS_NUM'], ['OBS_MISC', k + 2], ['OBS_CMDLINE'],
+                                    ['OBS_BASIC', 12]]
+            t['nears'] = []
+            t['features'] = sorted(set(t['features'] + ['lifetime_floor']))
+            tasks.append(t)
+        n0 = len(tasks[0]['ops'])
+        sched = []
+        # everybody does the first five operations, then the first model is dropped, then the others go on
+        for step in range(5):
+            for k in range(len(tasks)):
+                sched.append(k)
+        sched.append(0)
+        for k in range(1, len(tasks)):
+            sched += [k] * (len(tasks[k]['ops']) - 5)
+        plans.append(dict(version=1, run_seed=seed, tier=tier, floor=True, config='plain',
+                          hist=env_side(rng, False, 'hist'), orac=env_side(rng, False, 'orac'),
+                          disk={}, tasks=tasks, schedule=sched))
+    # field requests issued from a worker thread (awaited), frequency set in the main thread
+    for j in range(6):
+        seed = base_seed * 1000003 + 999996 + j
+        rng = random.Random(seed)
+        env = ['free', 'ideal', 'real2'][j % 3]
+        m = gen_model(rng, env=env, kinds=[[], ['skin_c'], ['impedance']][j % 3])
+        pool, probes = gen_pool(rng, m, k=3)
+        ops = [['COMPUTE'], ['FAR', 0], ['NEAR', 0], ['OBS_NUM'], ['SET_F', 1], ['COMPUTE'], ['FAR', 0], ['NEAR', 0],
+               ['OBS_NUM'], ['OBS_REPORT', ['far-field', 'near-field']], ['SET_F', 2], ['COMPUTE'], ['NEAR', 0],
+               ['FAR', 1], ['OBS_NUM'], ['SET_F', 0], ['COMPUTE'], ['FAR', 0], ['OBS_NUM']]
+        t = dict(kind='api', builder='cli', argv=m.argv(), pool=pool[:3], fars=[gen_far(rng), gen_far(rng)],
+                 nears=[gen_near(rng, m)], ops=ops, template=m.template, env=m.env,
+                 features=sorted(set(m.features + ['thread_floor'])), probes=probes,
+                 npulses=m.min_pulses() + 2 * len(m.geo), thread_fields=True, drop_results=bool(j % 2))
+        plans.append(dict(version=1, run_seed=seed, tier=tier, floor=True, config='plain',
+                          hist=env_side(rng, False, 'hist'), orac=env_side(rng, False, 'orac'),
+                          disk={}, tasks=[t], schedule=[0] * len(ops)))
     return plans
